@@ -144,6 +144,7 @@ def finish(ctx, module, out, build, audit_res, extraction):
         "known_findings_stale": stale,
         "exhaustive": out.exhaustive,
         "forbidden_tokens": build.get("forbidden", []),
+        "leanchecker": build.get("leanchecker", "not run (quick tier)"),
     }
     coverage.update(out.extra)
     ev = {
@@ -211,6 +212,14 @@ def main_run(module, prop, tier, replay=None):
         if build["forbidden"]:
             build["proofs_ok"] = False
             build["log"] += "\nforbidden tokens: " + "; ".join(build["forbidden"])
+        if pok and tier == "thorough":
+            # thorough tier: the compiled proofs are re-checked by Lean's independent checker
+            cok, clog = lean.leanchecker(f"OsyrisProofs.{prop}")
+            build["leanchecker"] = "ok" if cok else "FAILED: " + clog[-500:]
+            if not cok:
+                pok = False
+                build["proofs_ok"] = False
+                build["log"] += "\nleanchecker: " + clog
         if pok:
             audit_res = lean.audit(prop)
         else:
